@@ -406,5 +406,52 @@ func init() {
 		}
 		ex.setBool("c05HitHandsOutCopy", okHit, getf != nil,
 			"getRespFromCache: `r := v.resp.Copy()` on the fresh and on the lazy path, and no other use of v.resp: TTL arithmetic is done on, and the caller gets, a deep copy")
+		// readDump: a loaded entry gets exactly the three dumped times. Each of the three time variables is
+		// defined once from its dump field and never assigned again; the item and the Store call use them.
+		rd := ex.fn("plugin/executable/cache/cache.go", "Cache", "readDump")
+		okTimes := false
+		if rd != nil {
+			defs := map[string]string{}
+			nAssign := 0
+			nStore := 0
+			ast.Inspect(rd.Body, func(n ast.Node) bool {
+				switch y := n.(type) {
+				case *ast.AssignStmt:
+					for i, l := range y.Lhs {
+						name := ex.str(l)
+						if name == "cacheExpTime" || name == "msgExpTime" || name == "storedTime" {
+							nAssign++
+							if y.Tok == token.DEFINE && len(y.Lhs) == len(y.Rhs) {
+								defs[name] = ex.str(y.Rhs[i])
+							}
+						}
+					}
+				case *ast.IncDecStmt:
+					if name := ex.str(y.X); name == "cacheExpTime" || name == "msgExpTime" || name == "storedTime" {
+						nAssign++
+					}
+				case *ast.UnaryExpr:
+					if y.Op == token.AND {
+						if name := ex.str(y.X); name == "cacheExpTime" || name == "msgExpTime" || name == "storedTime" {
+							nAssign++
+						}
+					}
+				case *ast.CallExpr:
+					if strings.HasSuffix(ex.str(y.Fun), "backend.Store") {
+						nStore++
+					}
+				}
+				return true
+			})
+			ss := stmtStrings(ex, rd.Body)
+			okTimes = nAssign == 3 && nStore == 1 &&
+				defs["cacheExpTime"] == "time.Unix(entry.GetCacheExpirationTime(), 0)" &&
+				defs["msgExpTime"] == "time.Unix(entry.GetMsgExpirationTime(), 0)" &&
+				defs["storedTime"] == "time.Unix(entry.GetMsgStoredTime(), 0)" &&
+				contains(ss, "i := &item{ resp: resp, storedTime: storedTime, expirationTime: msgExpTime, }") &&
+				contains(ss, "c.backend.Store(key(entry.GetKey()), i, cacheExpTime)")
+		}
+		ex.setBool("c05ReadDumpKeepsTimes", okTimes, rd != nil,
+			"readDump: storedTime / msgExpTime / cacheExpTime are each defined once as time.Unix(<dumped field>, 0) and never assigned again; the item is built from storedTime and msgExpTime and stored once, with cacheExpTime (no expiry is recomputed from the local configuration)")
 	})
 }
